@@ -208,6 +208,28 @@ class Gen:
             cases.reverse()
         consumer['params'].append([f'rp{len(consumer["params"])}', ['sw', f'sw{self.sw}', d['id'], cases]])
 
+    def rec_side_shape(self, consumer, visible):
+        """consumer(r: Rec(S -> M -> D), s: Input(SIDE)), SIDE(a: Input(M), b: Input(SLOW)): an unordered outside reader
+        of the inner node M whose other dependency finishes while M is being executed again.  (Hostile: KF-RECOUT.)"""
+        rng = self.rng
+
+        def mk(params, flag=None, **kw):
+            n = self.new_node(**kw)
+            n['params'] = params
+            if flag:
+                self.flags[n['id']].add(flag)
+            self.finish(n)
+            return n
+        st = mk([['a', ['in', 'N0']]], 'private_rec', start_of=True)
+        m = mk([['a', ['in', st['id']]]], 'private_rec')
+        d = mk([['a', ['in', m['id']]]], 'dest', kind='dest', recurrent=True)
+        d['plan'].update({'start': st['id'], 'want_iter': {str(v): rng.choice([1, 2]) for v in self.p['inputs']}})
+        slow = mk([['a', ['in', 'N0']]])
+        side = mk([['a', ['in', m['id']]], ['b', ['in', slow['id']]]])
+        k = len(consumer['params'])
+        consumer['params'].extend([[f'rs{k}', ['rec', st['id'], d['id'], 3]], [f'rs{k + 1}', ['in', side['id']]]])
+        self.slow_hint.extend([slow['id'], m['id']])
+
     def rec_parallel_shape(self, consumer, visible):
         """consumer(r: Rec(S..D), o: OneOf([F, C2])), S -> A, S -> B, D(a: A, b: B), C2(a: Input(B)), F fails: while a
         re-iteration is blocked on the slow chain A, the second candidate's sub-pipeline asks for the re-armed node B of
@@ -375,7 +397,10 @@ class Gen:
         if not in_rec and not in_cand and depth > 0 and self.budget >= 6 and rng.random() < p.get('p_rec_paths_shape', 0.02):
             self.rec_paths_shape(node, local_visible)
         if not in_rec and not in_cand and depth > 0 and self.budget >= 6 and rng.random() < p.get('p_rec_parallel_shape', 0.0):
-            self.rec_parallel_shape(node, local_visible)
+            if rng.random() < 0.5:
+                self.rec_parallel_shape(node, local_visible)
+            else:
+                self.rec_side_shape(node, local_visible)
         if not in_rec and not in_cand and depth > 0 and self.budget >= 6 and rng.random() < p.get('p_shared_switch_shape', 0.02):
             self.shared_switch_shape(node, local_visible)
         if not in_rec and depth > 0 and self.budget >= 5 and rng.random() < p.get('p_late_oneof_shape', 0.02):
